@@ -396,3 +396,79 @@ def rule_py_path_tail(rep, floor=2):
     if n < 2:
         raise AnalysisError("only %d recursive calls over a path parameter found" % n)
     return r.done()
+
+
+_CONTIG_MAKERS = ("ascontiguousarray", "encode", "empty", "zeros", "ones", "full", "frombuffer", "arange", "concatenate", "copy", "array", "repeat", "tobytes")
+
+
+def rule_py_view_contiguous(rep, floor=2):
+    r = rep.rule("CONTIG.py-view-itemsize", "NumPy's `.view(\"u1\")` / `.view(\"<S..\")` (a dtype of another item size, written as a string literal) needs a contiguous last axis and reads the bytes as they lie in memory: its "
+                 "receiver is an array this function made contiguous (ascontiguousarray, char.encode, empty, concatenate, ...), possibly flattened with reshape(-1) - not a caller's array flattened with "
+                 "reshape(-1) alone, which is a strided view for a sliced array or a field of a structured array (from_numpy(a[::2]) of bytestrings raised ValueError); "
+                 "sites in tables/py_view_contiguous_exceptions.json are accepted with a reason", floor=floor)
+    table = load_table("py_view_contiguous_exceptions.json")
+    n = 0
+    for rel in _mods():
+        m = pf.module(rel)
+        for fn in _funcs(m.tree):
+            occ = 0
+            for c in ast.walk(fn):
+                if not (isinstance(c, ast.Call) and isinstance(c.func, ast.Attribute) and c.func.attr == "view" and _owner_func(c) is fn and len(c.args) == 1):
+                    continue
+                a = c.args[0]
+                lit = (isinstance(a, ast.Constant) and isinstance(a.value, str)) or (isinstance(a, ast.BinOp) and isinstance(a.left, ast.Constant) and isinstance(a.left.value, str))
+                if not lit:
+                    continue
+                occ += 1
+                n += 1
+
+                def made(e, depth=0):
+                    # strip reshape(-1)
+                    while isinstance(e, ast.Call) and isinstance(e.func, ast.Attribute) and e.func.attr in ("reshape", "ravel", "flatten"):
+                        if e.func.attr == "flatten":
+                            return True       # flatten() copies
+                        e = e.func.value
+                    if isinstance(e, ast.Call):
+                        nm = (pf.dotted(e.func) or "").split(".")[-1]
+                        return nm in _CONTIG_MAKERS
+                    if isinstance(e, ast.Name) and depth < 4:
+                        defs = [s.value for s in ast.walk(fn) if isinstance(s, ast.Assign) and len(s.targets) == 1 and isinstance(s.targets[0], ast.Name) and s.targets[0].id == e.id and s.lineno <= c.lineno]
+                        return bool(defs) and all(made(d, depth + 1) for d in defs)
+                    return False
+                key = "%s:%s#view%d" % (rel, fn.name, occ)
+                if key in table:
+                    r.excepted(key, table[key])
+                    continue
+                r.check(made(c.func.value), key, m.where(c),
+                        "%s: %s reinterprets `%s` with .view(%s) although nothing in the function made it contiguous" % (rel, fn.name, ast.unparse(c.func.value)[:40], ast.unparse(a)), detail="receiver made contiguous here")
+    if n < 2:
+        raise AnalysisError("only %d item-size changing views found" % n)
+    return r.done()
+
+
+def rule_py_depth_selector_regular(rep, floor=1):
+    r = rep.rule("REC.py-depth-selector-regular", "a node function handed to ak._util.recursively_apply that picks its nodes by `purelist_depth == k` is applied with numpy_to_regular=True: an n-dimensional "
+                 "NumpyArray is one node of depth n with nothing below it, so without the conversion to RegularArrays the selector never matches inside it and the operation silently returns the input "
+                 "(ak.to_categorical of a 2-d NumPy array was a no-op)", floor=floor)
+    n = 0
+    for rel in _mods():
+        m = pf.module(rel)
+        for fn in _funcs(m.tree):
+            local = {f.name: f for f in ast.walk(fn) if isinstance(f, ast.FunctionDef) and f is not fn}
+            for c in ast.walk(fn):
+                if not (isinstance(c, ast.Call) and (pf.dotted(c.func) or "").split(".")[-1] == "recursively_apply" and _owner_func(c) is fn and len(c.args) >= 2):
+                    continue     # broadcast_and_apply turns n-dimensional NumpyArrays into RegularArrays by itself
+                g = c.args[1]
+                if not (isinstance(g, ast.Name) and g.id in local):
+                    continue
+                selects = [x for x in ast.walk(local[g.id]) if isinstance(x, ast.Compare) and isinstance(x.left, ast.Attribute) and x.left.attr == "purelist_depth" and any(isinstance(o, ast.Eq) for o in x.ops)]
+                if not selects:
+                    continue
+                n += 1
+                kw = next((k for k in c.keywords if k.arg == "numpy_to_regular"), None)
+                ok = kw is not None and isinstance(kw.value, ast.Constant) and kw.value.value is True
+                r.check(ok, "%s:%s#%s" % (rel, fn.name, g.id), m.where(c), "%s: %s applies `%s`, which selects nodes by purelist_depth, without numpy_to_regular=True: an n-dimensional NumpyArray is never matched" % (rel, fn.name, g.id),
+                        detail="numpy_to_regular=True")
+    if n < 1:
+        raise AnalysisError("no depth-selecting node function found (to_categorical has one)")
+    return r.done()
